@@ -1,16 +1,22 @@
 mod exchange;
+#[cfg(not(feature = "min"))]
 mod charset;
 mod genx;
 mod happy;
 mod head;
 mod hostile;
 mod mp;
+#[cfg(not(feature = "min"))]
 mod mpart;
 mod proxy;
+#[cfg(not(feature = "min"))]
 mod rt;
 mod sendloop;
+#[cfg(not(feature = "min"))]
 mod settings;
+#[cfg(not(feature = "min"))]
 mod tlsx;
+#[cfg(not(feature = "min"))]
 mod tunnelreq;
 mod transport;
 mod util;
@@ -156,13 +162,19 @@ fn run_all(kind: &str, input: &str, outdir: &str, threads: usize, budget: Durati
                             "hostile" => hostile::run(&sc),
                             "loop" => sendloop::run(&sc),
                             "proxy" => proxy::run(&sc),
+                            #[cfg(not(feature = "min"))]
                             "mpart" => mpart::run(&sc),
+                            #[cfg(not(feature = "min"))]
                             "settings" => settings::run(&sc),
+                            #[cfg(not(feature = "min"))]
                             "rt" => rt::run(&sc),
                             "happy" => happy::run(&sc),
+                            #[cfg(not(feature = "min"))]
                             "tls" => tlsx::run(&sc),
                             "wdsched" => wdsched::run(&sc),
+                            #[cfg(not(feature = "min"))]
                             "tunnelreq" => tunnelreq::run(&sc),
+                            #[cfg(not(feature = "min"))]
                             "charset" => {
                                 if util::gs(&sc, "kind") == "charset" {
                                     let thorough = std::env::var("VERIF_TIER").map(|t| t == "thorough").unwrap_or(false);
@@ -247,11 +259,16 @@ fn main() {
             let seed: u64 = arg(&args, "--seed").and_then(|s| s.parse().ok()).unwrap_or(1);
             let tier = arg(&args, "--tier").unwrap_or("quick".into());
             let scs: Vec<String> = match family.as_str() {
+                #[cfg(not(feature = "min"))]
                 "tunnelreq" => tunnelreq::generate().into_iter().map(|v| v.to_string()).collect(),
+                #[cfg(not(feature = "min"))]
                 "rt" => rt::generate(seed, &tier, false).into_iter().map(|v| v.to_string()).collect(),
+                #[cfg(not(feature = "min"))]
                 "rt_release" => rt::generate(seed, &tier, true).into_iter().map(|v| v.to_string()).collect(),
+                #[cfg(not(feature = "min"))]
                 "mpart" => mpart::generate(seed, &tier).into_iter().map(|v| v.to_string()).collect(),
                 "c07_req" => sendloop::generate(seed, &tier).into_iter().map(|v| v.to_string()).collect(),
+                #[cfg(not(feature = "min"))]
                 "charset_split" => charset::generate(seed, &tier).into_iter().map(|v| v.to_string()).collect(),
                 "hostile" => hostile::generate(seed, &tier).into_iter().map(|v| v.to_string()).collect(),
                 "h_large" => head::generate(seed, &tier).into_iter().map(|v| v.to_string()).collect(),
